@@ -139,10 +139,48 @@ impl<'tcx> Cx<'tcx> {
     fn const_value(&self, def_id: DefId) -> J {
         let tcx = self.tcx;
         let ty = tcx.type_of(def_id).instantiate_identity().skip_norm_wip();
-        match tcx.const_eval_poly(def_id) {
+        let mut j = match tcx.const_eval_poly(def_id) {
             Ok(cv) => self.const_val_to_j(cv, ty, def_id),
             Err(_) => J::Null,
+        };
+        // aggregates (arrays of tuples, tuples, nested arrays): also the structured value, independent of layout
+        if matches!(ty.kind(), ty::Array(..) | ty::Tuple(..)) && !tcx.generics_of(def_id).requires_monomorphization(tcx) {
+            let cid = mir::interpret::GlobalId { instance: ty::Instance::mono(tcx, def_id), promoted: None };
+            let env = ty::TypingEnv::fully_monomorphized();
+            if let Ok(vt) = tcx.eval_to_valtree(env.as_query_input(cid)) {
+                let tree = self.valtree_to_j(vt, ty, 0);
+                if let J::Obj(ref mut v) = j {
+                    v.push(("tree".to_string(), tree));
+                } else {
+                    j = o(vec![("tree", tree)]);
+                }
+            }
         }
+        j
+    }
+
+    fn valtree_to_j(&self, vt: ty::ValTree<'tcx>, t: Ty<'tcx>, depth: usize) -> J {
+        if depth > 6 {
+            return J::Null;
+        }
+        if let Some(si) = vt.try_to_leaf() {
+            if t.is_bool() {
+                return J::Bool(si.to_bits(si.size()) != 0);
+            }
+            if t.is_signed() {
+                return J::Num(si.to_int(si.size()));
+            }
+            return J::Num(si.to_bits(si.size()) as i128);
+        }
+        if let Some(br) = vt.try_to_branch() {
+            let mut out = Vec::new();
+            for c in br.iter() {
+                let v = c.to_value();
+                out.push(self.valtree_to_j(v.valtree, v.ty, depth + 1));
+            }
+            return J::Arr(out);
+        }
+        J::Null
     }
 
     fn const_val_to_j(&self, cv: mir::ConstValue, ty: Ty<'tcx>, owner: DefId) -> J {
@@ -628,11 +666,41 @@ impl<'tcx> Cx<'tcx> {
                     v.push(("fn", s(self.path(*d))));
                 }
             }
-            ExprKind::NamedConst { def_id, .. } => {
+            ExprKind::NamedConst { def_id, args, .. } => {
                 v.push(("k", s("Const")));
                 v.push(("path", s(self.path(*def_id))));
                 v.push(("name", match self.tcx.opt_item_name(*def_id) { Some(x) => s(x), None => J::Null }));
-                v.push(("value", self.const_value(*def_id)));
+                // an associated const of a trait is a different item per implementing type: resolve it through the
+                // generic arguments when they are concrete, and leave it unevaluated when they are not (`Self::LEN`
+                // inside a provided method) - the interpreter resolves those by the receiver's type
+                let tcx = self.tcx;
+                let in_trait = matches!(tcx.def_kind(*def_id), DefKind::AssocConst { .. }) && tcx.trait_of_assoc(*def_id).is_some();
+                if in_trait {
+                    use rustc_middle::ty::TypeVisitableExt;
+                    v.push(("trait", s(self.path(tcx.trait_of_assoc(*def_id).unwrap()))));
+                    let mut gs = Vec::new();
+                    for a in args.iter() {
+                        if let Some(t) = a.as_type() {
+                            gs.push(self.ty(t));
+                        }
+                    }
+                    v.push(("generics", J::Arr(gs)));
+                    let mut val = J::Null;
+                    if !args.has_non_region_param() {
+                        let env = ty::TypingEnv::fully_monomorphized();
+                        if let Ok(Some(inst)) = ty::Instance::try_resolve(tcx, env, *def_id, args) {
+                            let cid = mir::interpret::GlobalId { instance: inst, promoted: None };
+                            if let Ok(cv) = tcx.const_eval_global_id(env, cid, e.span) {
+                                let t = tcx.type_of(inst.def_id()).instantiate_identity().skip_norm_wip();
+                                val = self.const_val_to_j(cv, t, inst.def_id());
+                                v.push(("resolved", s(self.path(inst.def_id()))));
+                            }
+                        }
+                    }
+                    v.push(("value", val));
+                } else {
+                    v.push(("value", self.const_value(*def_id)));
+                }
             }
             ExprKind::ConstParam { .. } => v.push(("k", s("ConstParam"))),
             ExprKind::StaticRef { def_id, .. } => {
@@ -787,6 +855,21 @@ fn extract<'tcx>(tcx: TyCtxt<'tcx>, name: &str) -> J {
                 }
                 v.push(("items", J::Arr(items)));
                 impls.push(o(v));
+            }
+            DefKind::Trait => {
+                // default values of a local trait's associated consts (an impl that does not override one uses it)
+                for ai in tcx.associated_items(did).in_definition_order() {
+                    if matches!(ai.kind, ty::AssocKind::Const { .. }) && tcx.defaultness(ai.def_id).has_value() {
+                        let t = tcx.type_of(ai.def_id).instantiate_identity().skip_norm_wip();
+                        consts.push(o(vec![
+                            ("path", s(cx.path(ai.def_id))),
+                            ("ty", cx.ty(t)),
+                            ("vis", s(vis_str(tcx, ai.def_id))),
+                            ("value", cx.const_value(ai.def_id)),
+                            ("trait_default", J::Bool(true)),
+                        ]));
+                    }
+                }
             }
             _ => {}
         }
